@@ -138,28 +138,36 @@ LoopGeometryOK(l, GF) ==
 PolyIn(P, c) == Cardinality({k \in 1..Len(P) : LoopIn(P[k], c)}) % 2 = 1
 
 AllCells(GF) == Faces \X (0..(Side(GF) - 1)) \X (0..(Side(GF) - 1))
-\* one representative cell per block of the arrangement of all bounding/notch lines:
-\* membership in every loop is constant on a block, so relations over Probes are exact
+\* one representative cell per block of the arrangement of all bounding/notch lines on the
+\* faces that carry a loop, and one cell for each other face: membership in every loop is
+\* constant on a block, so relations over Probes are exact (TLC proves this against AllCells
+\* on small levels, invariant PairExact of Gen_Relations)
 Probes(Ls, GF) ==
     LET xs == {0} \cup UNION {{Ls[k].X0, Ls[k].X1, Ls[k].MX} : k \in 1..Len(Ls)}
         ys == {0} \cup UNION {{Ls[k].Y0, Ls[k].Y1, Ls[k].MY} : k \in 1..Len(Ls)}
+        fs == {Ls[k].f : k \in 1..Len(Ls)}
         ok == 0..(Side(GF) - 1)
-    IN  Faces \X (xs \cap ok) \X (ys \cap ok)
+    IN  (fs \X (xs \cap ok) \X (ys \cap ok)) \cup {<<g, 0, 0>> : g \in Faces \ fs}
 
 \* point-set relations over a universe U of cells
-ContainsOn(U, P, Q) == \A c \in U : PolyIn(Q, c) => PolyIn(P, c)
-IntersectsOn(U, P, Q) == \E c \in U : PolyIn(P, c) /\ PolyIn(Q, c)
+RegionOn(U, P) == {c \in U : PolyIn(P, c)}
+Subset(rq, rp) == rq \subseteq rp
+Meets(rp, rq) == rp \cap rq # {}
+ContainsOn(U, P, Q) == Subset(RegionOn(U, Q), RegionOn(U, P))
+IntersectsOn(U, P, Q) == Meets(RegionOn(U, P), RegionOn(U, Q))
 
 \* the boundaries of two loops have a common point (same face only)
 LoopsTouch(a, b) == a.f = b.f /\ BoundaryPts(a) \cap BoundaryPts(b) # {}
 PolysTouch(P, Q) == \E i \in 1..Len(P), j \in 1..Len(Q) : LoopsTouch(P[i], Q[j])
 BoundaryOnlyContact(U, P, Q) == PolysTouch(P, Q) /\ ~IntersectsOn(U, P, Q)
 
-\* nesting inside one polygon.  Encloses is strict inclusion of loop regions.
-ShapeSubset(a, b, U) == \A c \in U : LoopIn(a, c) => LoopIn(b, c)
-Encloses(b, a, U) == ShapeSubset(a, b, U) /\ ~ShapeSubset(b, a, U)
-DepthIn(P, k, U) == Cardinality({j \in 1..Len(P) : j # k /\ Encloses(P[j], P[k], U)})
-TopIdx(P, U) == CHOOSE k \in 1..Len(P) : DepthIn(P, k, U) = 0 /\ \A j \in 1..(k - 1) : DepthIn(P, j, U) # 0
+\* nesting inside one polygon: loop j encloses loop i when the region of i is strictly
+\* included in the region of j.  LoopRegions gives the region of every loop on U once.
+LoopRegions(P, U) == [k \in 1..Len(P) |-> {c \in U : LoopIn(P[k], c)}]
+EnclosingIn(reg, i) == {j \in DOMAIN reg : j # i /\ reg[i] \subseteq reg[j] /\ reg[i] # reg[j]}
+DepthIn(P, k, U) == Cardinality(EnclosingIn(LoopRegions(P, U), k))
+TopIdx(P, U) == LET reg == LoopRegions(P, U)
+                IN  CHOOSE k \in 1..Len(P) : EnclosingIn(reg, k) = {} /\ \A j \in 1..(k - 1) : EnclosingIn(reg, j) # {}
 \* the complement polygon: the first top-level loop reversed
 PolyComplement(P, U) == [P EXCEPT ![TopIdx(P, U)] = Complement(@)]
 
@@ -167,29 +175,32 @@ PolyComplement(P, U) == [P EXCEPT ![TopIdx(P, U)] = Complement(@)]
 \* boundaries meeting at isolated points only (no two adjacent common grid points =>
 \* no shared edge), all on one face, none reversed
 ValidPolygon(P, U) ==
-    /\ Len(P) >= 1
-    /\ \A i \in 1..Len(P) : ~P[i].rev /\ P[i].f = P[1].f
-    /\ \A i, j \in 1..Len(P) : i < j =>
-          /\ \/ ShapeSubset(P[i], P[j], U) \/ ShapeSubset(P[j], P[i], U)
-             \/ ~\E c \in U : LoopIn(P[i], c) /\ LoopIn(P[j], c)
-          /\ LET common == BoundaryPts(P[i]) \cap BoundaryPts(P[j])
-             IN  \A p, q \in common : Abs(p[1] - q[1]) + Abs(p[2] - q[2]) # 1
+    LET reg == LoopRegions(P, U)
+    IN  /\ Len(P) >= 1
+        /\ \A i \in 1..Len(P) : ~P[i].rev /\ P[i].f = P[1].f
+        /\ \A i, j \in 1..Len(P) : i < j =>
+              /\ reg[i] \subseteq reg[j] \/ reg[j] \subseteq reg[i] \/ reg[i] \cap reg[j] = {}
+              /\ reg[i] # reg[j]
+              /\ LET common == BoundaryPts(P[i]) \cap BoundaryPts(P[j])
+                 IN  \A p, q \in common : Abs(p[1] - q[1]) + Abs(p[2] - q[2]) # 1
 
 \* ------------------------------------------------------------------ laws ------
-\* The set-algebra laws of the property, as equations between the model's answers for the
-\* four combinations of a pair and their complements.  cP/cQ are the complements.
-LawsHold(U, P, Q, cP, cQ) ==
-    /\ IntersectsOn(U, P, Q) = IntersectsOn(U, Q, P)
-    /\ ContainsOn(U, P, P) /\ IntersectsOn(U, P, P)
-    /\ ContainsOn(U, Q, Q) /\ IntersectsOn(U, Q, Q)
-    /\ IntersectsOn(U, P, Q) = ~ContainsOn(U, cP, Q)
-    /\ IntersectsOn(U, cP, Q) = ~ContainsOn(U, P, Q)
-    /\ ContainsOn(U, P, Q) = ContainsOn(U, cQ, cP)
-    /\ ContainsOn(U, Q, P) = ContainsOn(U, cP, cQ)
-    /\ \A c \in U : PolyIn(cP, c) = ~PolyIn(P, c)
-    /\ \A c \in U : PolyIn(cQ, c) = ~PolyIn(Q, c)
-    /\ ~(ContainsOn(U, P, Q) /\ ContainsOn(U, cP, Q))     \* Q is not empty
-    /\ (BoundaryOnlyContact(U, P, Q) => ~ContainsOn(U, P, Q) /\ ~ContainsOn(U, Q, P))
+\* The set-algebra laws of the property, as equations between the model's answers for a
+\* pair and the complements.  rp, rq, rcp, rcq are the regions (sets of cells of U) of
+\* P, Q and of the polygons the model calls their complements; touch = boundaries meet.
+LawsHold(U, rp, rq, rcp, rcq, touch) ==
+    /\ Meets(rp, rq) = Meets(rq, rp)
+    /\ Subset(rp, rp) /\ Meets(rp, rp)
+    /\ Subset(rq, rq) /\ Meets(rq, rq)
+    /\ Meets(rp, rq) = ~Subset(rq, rcp)
+    /\ Meets(rcp, rq) = ~Subset(rq, rp)
+    /\ Meets(rq, rp) = ~Subset(rp, rcq)
+    /\ Subset(rq, rp) = Subset(rcp, rcq)
+    /\ Subset(rp, rq) = Subset(rcq, rcp)
+    /\ rcp = U \ rp /\ rcq = U \ rq
+    /\ rp # {} /\ rq # {} /\ rcp # {} /\ rcq # {}
+    \* boundary-only contact: neither intersecting nor containing
+    /\ (touch /\ ~Meets(rp, rq) => ~Subset(rq, rp) /\ ~Subset(rp, rq))
 
 \* ------------------------------------------------------- nesting forests ------
 (* A forest on nodes 1..n is a parent vector p with p[i] < i (0 = root); code is its
